@@ -53,14 +53,17 @@ Base == {
 Ptrs == {[d EXCEPT !.id = "ptr:" \o d.id] : d \in {b \in Base : b.id \in {"slice:int:4,5,6", "slice:string:a,b", "map:ss:a=x,b=y",
                                                                               "map:is:1=a,2=b", "map:ns:1=a,3=c", "struct:person", "array3", "slice:int:", "struct:emb", "struct:embnil", "struct:funcs", "map:vs:a=b", "tags:go,twig,templates", "smap:k=v,j=w"}}}
 Nils == {[id |-> x, kind |-> "nil"] : x \in {"nil", "nilptr:slice", "nilptr:map", "nilptr:person", "slice:nilint", "map:nilss", "nilptr:int"}}
+(* a struct whose methods Hello / PHello are promoted from an embedded pointer that is nil: they cannot be called, which is an
+   error like any other unusable attribute; its own field Own is there *)
+EmbNil == {[id |-> "embnilmethod", kind |-> "fstruct", fields |-> << <<"Own", SB("own")>> >>, structs |-> {}]}
 Scalars == {[id |-> x, kind |-> "scalar"] : x \in {"num:int:192", "num:float64:96", "str:abc", "bool:t", "stringer:abc", "func", "chan"}}
-Containers == Base \cup Ptrs \cup Nils \cup Scalars
+Containers == Base \cup Ptrs \cup Nils \cup Scalars \cup EmbNil
 Desc(id) == CHOOSE d \in Containers : d.id = id
 
 HostKey(id) == [t |-> "go", id |-> id]
 Keys == << SB("a"), SB("zz"), SB("1"), SB(""), IntV(0), IntV(1), IntV(2), IntV(3), IntV(8), IntV(0 - 1), Num(96), Bool(TRUE), Bool(FALSE), Null,
            SB("Name"), SB("Age"), SB("Tags"), SB("Inner"), SB("secret"), SB("Greet"), SB("Nothing"), SB("Two"), SB("Sum"), SB("Rename"),
-           SB("Self"), SB("hidden"), SB("Nope"), SB("k"), IntV(1000000), SB("Wait"), SB("Level"), IntV(300), SB("Own"), SB("ID"), SB("Title"), SB("Code"), SB("Base"), SB("hiddenBase"), SB("F"), SB("N"), SB("G"),
+           SB("Self"), SB("Hello"), SB("Own"), SB("hidden"), SB("Nope"), SB("k"), IntV(1000000), SB("Wait"), SB("Level"), IntV(300), SB("Own"), SB("ID"), SB("Title"), SB("Code"), SB("Base"), SB("hiddenBase"), SB("F"), SB("N"), SB("G"),
            HostKey("slice:int:4,5,6"), HostKey("map:ss:k=v"), HostKey("func"), HostKey("unhash"),
            (* host numbers far outside the window: no container has them as a key or index; the lookup is an error, never a panic *)
            HostKey("huge:1e19"), HostKey("huge:-1e19"), HostKey("huge:1e300"), HostKey("huge:inf"), HostKey("huge:-inf"), HostKey("huge:nan"),
